@@ -25,9 +25,17 @@
 #ifndef STRICT
 #define STRICT 0
 #endif
-#ifndef SIGROW            /* 0: signal on the field-1 row, 1: on the field-2 row; the other row is blank */
-#define SIGROW 0
+#ifndef ILACE
+#define ILACE 0
 #endif
+/* configuration of the transmitter the tables were made for */
+#define SVC C04_TAB_SVC
+#define SCANNING C04_TAB_SCANNING
+#define RATE C04_TAB_RATE
+#define OFFSET C04_TAB_OFFSET
+#define LINE C04_TAB_LINE
+/* 0: signal on the field-1 row, 1: on the field-2 row; the other row is blank */
+#define SIGROW ((SCANNING == 625) ? (LINE >= 312) : (LINE >= 263))
 #define SPL C04_TAB_SPL
 #define NBITS C04_TAB_NBITS
 #define NBYTES ((NBITS + 7) / 8)
@@ -104,3 +112,235 @@ V_HARNESS(h_wave)
   V_END();
 }
 #endif /* C04_WAVE */
+
+#ifndef C04_WAVE
+/* ======================= (2) line numbers / pattern table: solver over configurations ======================== */
+#ifndef C0
+#define C0 1             /* scan lines of field 1 / field 2 (grid): the pattern table has (C0+C1) x 8 ways */
+#endif
+#ifndef C1
+#define C1 1
+#endif
+#ifndef REQ
+#define REQ VBI_SLICED_TELETEXT_B      /* requested service set (grid) */
+#endif
+#ifndef ILACE
+#define ILACE 0
+#endif
+#define LINES (C0 + C1)
+#define BPL 2048
+#define MAXOUT (LINES + 1)
+
+static vbi3_raw_decoder RD;
+static vbi_sliced OUT[MAXOUT + 1];
+static uint8_t IMG[LINES * BPL];               /* never read (stubbed slicer); rows are checked by address */
+#define ST_RD RD
+#define ST_OUT OUT
+#define ST_NOUT (MAXOUT + 1)
+#define ST_IMG IMG
+#define ST_NROWS LINES
+#define ST_BPL BPL
+#include "c05_slicer_stub.h"
+
+static void c04_in_sampling_par(vbi_sampling_par *sp)
+{
+  memset(sp, 0, sizeof *sp);
+  sp->scanning = in_int(); sp->sampling_format = (vbi_pixfmt) in_int(); sp->sampling_rate = in_int();
+  sp->bytes_per_line = BPL; sp->offset = in_int();
+  sp->start[0] = in_int(); sp->start[1] = in_int(); sp->count[0] = C0; sp->count[1] = C1;
+  sp->interlaced = ILACE; sp->synchronous = in_int();
+}
+
+/* independent reading of the service table semantics: is ITU-R line `line` of field f (0/1) a line on which
+ * one of the services in `set` may be transmitted?  (first[f]..last[f] of a table row whose id is in the set)
+ * KNOWN_LINES_NO_OVERLAP (known finding): when NONE of the sampled lines of the field is a line of the service,
+ * lines_containing_data() keeps the whole field instead of nothing (raw_decoder.c:869-871 `continue`), so the
+ * service is then searched - and may be reported - on lines where it is never transmitted. */
+static int c04_line_permitted(const vbi_sampling_par *sp, vbi_service_set set, unsigned f, unsigned line)
+{
+  const _vbi_service_par *par;
+  for (par = _vbi_service_table; par->id; ++par)
+    if ((par->id & set) && par->first[f] != 0 && par->last[f] != 0) {
+      if (line >= (unsigned) par->first[f] && line <= (unsigned) par->last[f]) return 1;
+#ifdef KNOWN_LINES_NO_OVERLAP
+      if (sp->count[f] > 0 && ((unsigned) par->first[f] > (unsigned) sp->start[f] + sp->count[f] - 1
+                               || (unsigned) par->last[f] < (unsigned) sp->start[f])) return 1;
+#endif
+    }
+  (void) sp;
+  return 0;
+}
+
+static unsigned c04_row_field(const vbi_sampling_par *sp, unsigned row, unsigned *idx)
+{ /* decode order: rows 0..count[0]-1 are field 1, the rest field 2 (sequential and interlaced storage alike) */
+  if (row >= (unsigned) sp->count[0]) { *idx = row - sp->count[0]; return 1; }
+  *idx = row; return 0;
+}
+
+/* SEQ: fresh decoder -> add_services(REQ, strict) -> decode with arbitrary slicer verdicts */
+V_HARNESS(h_add_decode)
+{
+  vbi_sampling_par sp;
+  vbi_service_set got;
+  int strict;
+  unsigned max_lines, n, k, r, w, j;
+  V_INIT();
+  c04_in_sampling_par(&sp);
+  strict = (int) (in_u8() % 3);
+  max_lines = in_u8();
+  in_bytes(st_verdict, sizeof st_verdict);
+  in_bytes(OUT, sizeof OUT);
+  st_fill = in_u8();
+  V_ASSUME(max_lines <= MAXOUT);
+  st_max_lines = max_lines;
+  memset(&RD, 0, sizeof RD);
+  V_ASSUME(_vbi3_raw_decoder_init(&RD, &sp));          /* = sampling parameters valid */
+
+  got = vbi3_raw_decoder_add_services(&RD, REQ, strict);
+
+  V_ASSERT((got & ~(vbi_service_set) (REQ)) == 0 && got == RD.services, "only_requested_services_admitted");
+  V_ASSERT(RD.n_jobs <= _VBI3_RAW_DECODER_MAX_JOBS, "job_table_bound");
+  V_ASSERT(RD.pattern != NULL && st_pat_inv(RD.pattern, LINES, RD.n_jobs), "pattern_invariant_established");
+  for (j = 0; j < _VBI3_RAW_DECODER_MAX_JOBS; j++)
+    if (j < RD.n_jobs) V_ASSERT(RD.jobs[j].id != 0 && (RD.jobs[j].id & ~got) == 0, "job_ids_are_admitted_services");
+  /* a job is looked for only on rows whose line number the service permits (when line numbers are known) */
+  for (r = 0; r < LINES; r++)
+    for (w = 0; w < _VBI3_RAW_DECODER_MAX_WAYS; w++) {
+      int v = RD.pattern[r * _VBI3_RAW_DECODER_MAX_WAYS + w];
+      if (v > 0) {
+        unsigned idx, f = c04_row_field(&sp, r, &idx);
+        V_ASSERT((unsigned) v <= RD.n_jobs, "way_is_a_job");
+        if (sp.synchronous && sp.start[f] != 0)
+          V_ASSERT(c04_line_permitted(&sp, RD.jobs[v - 1].id, f, sp.start[f] + idx), "job_only_on_permitted_lines");
+      }
+    }
+  if (got) V_REACH("admitted"); else V_REACH("not_admitted");
+
+  n = vbi3_raw_decoder_decode(&RD, OUT, max_lines, IMG);
+
+  V_ASSERT(n <= max_lines && n <= LINES, "never_more_than_max_lines");
+  V_ASSERT(got != 0 || n == 0, "nothing_without_services");
+  for (k = 0; k < MAXOUT; k++)
+    if (k < n) {
+      unsigned row = (unsigned) st_hit_row[k], idx, f = c04_row_field(&sp, row, &idx);
+      if (sp.interlaced) { f = row & 1; idx = row >> 1; }
+      V_ASSERT(OUT[k].id != 0 && (OUT[k].id & ~(vbi_service_set) (REQ)) == 0, "id_is_a_requested_service");
+      if (sp.synchronous && sp.start[f] != 0) {
+        V_ASSERT(OUT[k].line == (unsigned) sp.start[f] + idx, "itu_line_number");
+        V_ASSERT(c04_line_permitted(&sp, OUT[k].id, f, OUT[k].line), "line_inside_permitted_range_of_the_service");
+      } else V_ASSERT(OUT[k].line == 0, "unknown_line_reported_as_0");
+      if (k > 0 && OUT[k].line != 0 && OUT[k - 1].line != 0) V_ASSERT(OUT[k].line > OUT[k - 1].line, "lines_strictly_ascending");
+    }
+  if (n >= 2 || LINES < 2) V_REACH("two_records");
+  V_END();
+}
+
+/* INV-STEP: add_job_to_pattern on an arbitrary table satisfying the invariant (success and failure path) */
+static int8_t PATS[LINES * _VBI3_RAW_DECODER_MAX_WAYS];
+V_HARNESS(h_add_job)
+{
+  unsigned start[2], count[2], r, w, job, nj;
+  int8_t pat0[LINES * _VBI3_RAW_DECODER_MAX_WAYS];
+  vbi_bool ok;
+  V_INIT();
+  in_bytes(PATS, sizeof PATS);
+  start[0] = in_u8(); start[1] = in_u8(); count[0] = in_u8(); count[1] = in_u8(); job = in_u8(); nj = in_u8();
+#ifdef S0      /* grid: the two row ranges concrete (pattern pointers then have constant offsets) */
+  start[0] = S0; count[0] = N0; start[1] = S1; count[1] = N1;
+#endif
+  memset(&RD, 0, sizeof RD);
+  RD.pattern = PATS; RD.sampling.count[0] = C0; RD.sampling.count[1] = C1; RD.n_jobs = nj;
+  V_ASSUME(nj <= _VBI3_RAW_DECODER_MAX_JOBS && job < _VBI3_RAW_DECODER_MAX_JOBS && job <= nj);   /* existing job or the next free one */
+  /* what lines_containing_data produces: two row ranges inside the table (shown by h_lines) */
+  V_ASSUME(start[0] + count[0] <= LINES && start[1] + count[1] <= LINES && start[0] <= LINES && start[1] <= LINES);
+  V_ASSUME(st_pat_inv(PATS, LINES, nj));
+  memcpy(pat0, PATS, sizeof PATS);
+
+  ok = add_job_to_pattern(&RD, (int) job, start, count);
+
+  V_ASSERT(st_pat_inv(PATS, LINES, nj > job ? nj : job + 1), "pattern_invariant_preserved");
+  for (r = 0; r < LINES; r++) {
+    int in_range = (r >= start[0] && r < start[0] + count[0]) || (r >= start[1] && r < start[1] + count[1]);
+    unsigned have = 0, same = 1;
+    for (w = 0; w < _VBI3_RAW_DECODER_MAX_WAYS; w++) {
+      have += PATS[r * 8 + w] == (int) job + 1;
+      same &= PATS[r * 8 + w] == pat0[r * 8 + w];
+    }
+    if (ok && in_range) V_ASSERT(have >= 1, "job_entered_in_each_row_of_the_ranges");
+    if (!in_range) V_ASSERT(same, "rows_outside_the_ranges_untouched");
+    /* other jobs of a row are never dropped */
+    for (w = 0; w < _VBI3_RAW_DECODER_MAX_WAYS; w++) {
+      int v = pat0[r * 8 + w]; unsigned x, found = 0;
+      for (x = 0; x < _VBI3_RAW_DECODER_MAX_WAYS; x++) found |= PATS[r * 8 + x] == v;
+      if (v > 0) V_ASSERT(found, "existing_jobs_kept");
+    }
+  }
+  if (ok) V_REACH("added"); else V_REACH("no_space");
+  V_END();
+}
+
+/* lines_containing_data: the row ranges lie inside the table and cover exactly the permitted lines */
+V_HARNESS(h_lines)
+{
+  vbi_sampling_par sp;
+  unsigned start[2], count[2], f, r;
+  const _vbi_service_par *par;
+  unsigned row;
+  V_INIT();
+  c04_in_sampling_par(&sp);
+  row = in_u8();
+  memset(&RD, 0, sizeof RD);
+  V_ASSUME(_vbi3_raw_decoder_init(&RD, &sp));
+  V_ASSUME(row < 19);
+  par = &_vbi_service_table[row];
+  V_ASSUME(par->id != 0 && par->id != VBI_SLICED_VBI_625 && par->id != VBI_SLICED_VBI_525);
+  lines_containing_data(start, count, &sp, par);
+  V_ASSERT(start[0] + count[0] <= (unsigned) C0 && start[0] <= (unsigned) C0, "field1_range_inside_field1_rows");
+  V_ASSERT(start[1] >= (unsigned) C0 && start[1] + count[1] <= LINES && start[1] <= LINES, "field2_range_inside_field2_rows");
+  for (f = 0; f < 2; f++)
+    for (r = 0; r < LINES; r++) {
+      unsigned base = f ? C0 : 0, cnt = f ? C1 : C0;
+      if (r >= base && r < base + cnt && sp.synchronous && sp.start[f] != 0) {
+        unsigned line = sp.start[f] + (r - base);
+        int in = r >= start[f] && r < start[f] + count[f];
+        int perm = c04_line_permitted(&sp, par->id, f, line);
+        V_ASSERT(in == perm, "rows_selected_iff_line_permitted");
+      }
+    }
+  V_REACH("called");
+  V_END();
+}
+
+/* INV-STEP: remove_job_from_pattern (the pattern part of vbi3_raw_decoder_remove_services) on an arbitrary table
+ * satisfying the invariant: invariant preserved for one job less, the job is gone from every row, jobs above it
+ * are renumbered, other jobs and their order are kept.
+ * (The job-array part of vbi3_raw_decoder_remove_services - memmove with a path dependent length over the 1 KB job
+ * table - gave no verdict: 174 s, 6.4 GB, killed; it is outside.) */
+V_HARNESS(h_remove_job)
+{
+  unsigned r, w, nj, job;
+  int8_t pat0[LINES * _VBI3_RAW_DECODER_MAX_WAYS];
+  V_INIT();
+  in_bytes(PATS, sizeof PATS);
+  nj = in_u8(); job = in_u8();
+  memset(&RD, 0, sizeof RD);
+  RD.pattern = PATS; RD.sampling.count[0] = C0; RD.sampling.count[1] = C1; RD.n_jobs = nj;
+  V_ASSUME(nj >= 1 && nj <= _VBI3_RAW_DECODER_MAX_JOBS && job < nj);
+  V_ASSUME(st_pat_inv(PATS, LINES, nj));
+  memcpy(pat0, PATS, sizeof PATS);
+  remove_job_from_pattern(&RD, (int) job);
+  V_ASSERT(st_pat_inv(PATS, LINES, nj - 1), "pattern_invariant_preserved");
+  for (r = 0; r < LINES; r++) {
+    unsigned d = 0;
+    for (w = 0; w < _VBI3_RAW_DECODER_MAX_WAYS; w++) {      /* expected row: old row without the job, renumbered, zero filled */
+      int v = pat0[r * 8 + w];
+      if (v == (int) job + 1) continue;
+      V_ASSERT(PATS[r * 8 + d] == (v > (int) job + 1 ? v - 1 : v), "row_compacted_and_renumbered");
+      d++;
+    }
+    for (w = 0; w < _VBI3_RAW_DECODER_MAX_WAYS; w++) if (w >= d) V_ASSERT(PATS[r * 8 + w] == 0, "row_zero_filled");
+  }
+  V_REACH("called");
+  V_END();
+}
+#endif /* !C04_WAVE */
